@@ -769,7 +769,7 @@ def rule_maybeuninit(facts):
     for b in facts.bodies:
         if b["kind"] == "Closure":
             continue
-        if b.get("impl_trait") in ("container::ContainerExactly", "private::MaybeUninitExt") or b.get("in_trait") in ("container::ContainerExactly", "private::MaybeUninitExt"):
+        if (b.get("impl_trait") or "").split("::")[-1] in ("ContainerExactly", "MaybeUninitExt") or (b.get("in_trait") or "").split("::")[-1] in ("ContainerExactly", "MaybeUninitExt"):
             continue  # the primitives themselves (UNSAFE-INV inventory)
         if _deep(facts, b, _is_uninit):
             holders.append(b)
